@@ -1,23 +1,26 @@
-"""Per-property check configuration (see DESIGN.md section 4)."""
+"""Per-property check configuration: every harness/cXX/check.json describes one property's check
+(see harness/README.md for the format); this module just loads them."""
+import glob
+import json
+import os
 
-REG = {"name": "regressions", "kind": "plain", "run": "^TestReg", "timeout": (120, 300)}
+VERIF = os.path.dirname(os.path.dirname(os.path.abspath(__file__)))
 
-PROPS = {
-    "C10": {
-        "pkg": "./c10",
-        "level": "exploration",
-        "exhaustive_claim": True,
-        "rule": "exhaustive: all 2^8/2^16 values through Pack/Unpack/EncodedSize and all byte strings of length<=3 through "
-        "Unpack8/16/32/64+GetNextBlock, each compared with an independent LEB128 reference; generated: uint64 values biased "
-        "to 7-bit-group and bit boundaries, byte strings <=12 bytes biased to continuation bits, blocks with length prefixes "
-        "up to 2^64-1. Non-trivial = multi-byte encodings (value>=128 / first byte has the continuation bit) and every block case; "
-        "distinct by value / byte string.",
-        "assumptions": ["the reference LEB128 decoder/encoder in harness/c10 is correct (40 lines, exhaustively cross-checked on <=3 bytes)"],
-        "jobs": [
-            REG,
-            {"name": "exhaustive", "kind": "plain", "run": "^TestExhaustive", "timeout": (300, 600)},
-            {"name": "rapid", "kind": "rapid", "run": "^TestProp", "checks": (20000, 400000), "shards": (4, 16), "timeout": (300, 1500)},
-            {"name": "fuzz", "kind": "fuzz", "target": "FuzzUnpack", "fuzztime": (0, 60), "tiers": ("thorough",)},
-        ],
-    },
-}
+REG = {"name": "regressions", "kind": "plain", "run": "^TestReg", "timeout": [120, 300]}
+
+
+def _load():
+    out = {}
+    for f in sorted(glob.glob(os.path.join(VERIF, "harness", "*", "check.json"))):
+        cfg = json.load(open(f))
+        pid = cfg["id"]
+        cfg.setdefault("pkg", "./" + os.path.basename(os.path.dirname(f)))
+        jobs = cfg.get("jobs", [])
+        if not any(j.get("name") == "regressions" for j in jobs):
+            jobs.insert(0, dict(REG))
+        cfg["jobs"] = jobs
+        out[pid] = cfg
+    return out
+
+
+PROPS = _load()
